@@ -213,3 +213,1482 @@ PROPS = {
     'C01': {'run': run_c01, 'search': search_c01,
             'assumes': ['per-case running time is observed on generated inputs only (watchdog); the theorem bounds the loop iteration count, not wall-clock time']},
 }
+
+
+# =============================================================================== helpers
+def conformance(rep):
+    """for properties that *are* conformance to the reference: a disagreement is a failing input"""
+    for d in rep.disagreements:
+        rep.fail('implementation differs from the specification', case=d['case'], executor=d['executor'],
+                 implementation=d['implementation'][:600], specification=d['model'][:600])
+    rep.disagreements = []
+
+
+def strip_rem(r):
+    i = r.rfind(' rem=')
+    return r if i < 0 else r[:i]
+
+
+def get_rem(r):
+    i = r.rfind(' rem=')
+    return None if i < 0 else int(r[i + 5:].split()[0])
+
+
+def big_values(rng):
+    """values at the size limits: 1017-octet payloads, a message of exactly 65535 octets"""
+    out = []
+    big = 'HostName(%s)' % rbytes(rng, 1017).hex()
+    avps = ['MessageType(Hello)'] + ['HostName(%s)' % rbytes(rng, 1017).hex() for _ in range(63)]
+    # 12 + 8 + 63*1023 = 64469 ; remaining 1066 = 1023 + 43
+    avps.append('Challenge(%s)' % rbytes(rng, 1017).hex())
+    avps.append('VendorName(%s)' % rutf8(rng, 37).hex())
+    out.append(('max_msg_65535', ctrl_text(0, 1, 2, 3, 4, avps)))
+    out.append(('one_big_avp', ctrl_text(7, 1, 2, 3, 4, ['MessageType(SetLinkInfo)', big])))
+    return out
+
+
+# =============================================================================== C02
+def run_c02(ctx):
+    rep = Report()
+    rng = ctx.rng
+    items = corpus.dec_corpus(rng, ctx.scale(8000, 100000), ctx.thorough)
+    a, b, tags = [], [], []
+    for (t, x) in items:
+        o = rng.randrange(8)
+        a.append('DECR\t%d\t%s' % (o, x.hex())); b.append('DEC\t%d\t%s' % (o, x.hex())); tags.append(t)
+    for (t, x) in corpus.avps_corpus(rng, ctx.scale(3000, 40000), ctx.thorough):
+        a.append('AVPSR\t%s' % x.hex()); b.append('AVPS\t%s' % x.hex()); tags.append('avps_' + t)
+    for (t, x) in corpus.guard_grid(rng, ctx.thorough):
+        ty = int.from_bytes(x[4:6], 'big')
+        a.append('TYPER\t%d\t%s' % (ty, x[6:].hex())); b.append('TYPE\t%d\t%s' % (ty, x[6:].hex())); tags.append('type_grid')
+
+    def obs(c, r):
+        if not returns(r):
+            return cls(r)
+        i = r.rfind(' viol=')
+        return 'RETURNS ' + (r[i + 1:] if i >= 0 else 'noviol')
+    res = run_compare(ctx, rep, a, tags, obs, nontrivial=lambda c, m: len(c) > 14)
+    plain = ctx.runner.run(b, IMPLS)
+    for w in IMPLS:
+        for i, c in enumerate(a):
+            r = res[w][i]
+            if cls(r) == 'BADCASE':
+                continue
+            if not returns(r):
+                rep.fail('decode through the contract-checking reader did not return: %s' % cls(r), case=c, executor=w, result=r[:300])
+                continue
+            j = r.rfind(' viol=')
+            if r[j + 6:] != '0':
+                rep.fail('decoder issued an out-of-contract reader call', case=c, executor=w, result=r[:300])
+            elif r[:j] != plain[w][i]:
+                rep.fail('result differs between the checking reader and SliceReader', case=c, executor=w,
+                         checked=r[:300], slice=plain[w][i][:300])
+            if cls(plain[w][i]) in ('ABORT', 'PANIC', 'HANG'):
+                rep.fail('SliceReader decode did not return: %s' % cls(plain[w][i]), case=b[i], executor=w, result=plain[w][i][:200])
+    # reveal builds its own SliceReader: abort/panic capture in the debug profile
+    rv = []
+    for _ in range(ctx.scale(2000, 30000)):
+        n = rng.choice([16, 16, 32, 48, 64])
+        rv.append('REVEAL\tHidden(%d,%s)\t%s\t%s' % (rng.choice([7, 0, 8, 1, rng.randrange(0, 40)]), rbytes(rng, n).hex(),
+                                                  rbytes(rng, rng.randrange(0, 6)).hex(), rbytes(rng, 4).hex()))
+    r2 = run_compare(ctx, rep, rv, ['reveal_random'] * len(rv), lambda c, r: 'RETURNS' if returns(r) else cls(r))
+    for w in IMPLS:
+        for c, r in zip(rv, r2[w]):
+            if not returns(r):
+                rep.fail('reveal did not return: %s' % cls(r), case=c, executor=w, result=r[:200])
+    rep.notes['rule'] = ('DECR/AVPSR/TYPER through the harness CheckedReader (logs every out-of-contract call) and the same inputs '
+                         'through SliceReader; REVEAL on random hidden values with abort capture; non-trivial = more than the flag word')
+    rep.notes['channels'] = ['DECR', 'AVPSR', 'TYPER', 'DEC', 'AVPS', 'TYPE', 'REVEAL']
+    return rep
+
+
+# =============================================================================== C03
+def run_c03(ctx):
+    rep = Report()
+    rng = ctx.rng
+    vals = [(t, v) for (t, v) in big_values(rng)]
+    for _ in range(ctx.scale(2500, 30000)):
+        vals.append(('rand_ctrl', rand_ctrl(rng)))
+    for k in KIND_LIST + ['Hidden']:
+        for _ in range(ctx.scale(12, 100)):
+            vals.append(('ctrl_kind_' + k, ctrl_text(0, 1, 2, 3, 4, ['MessageType(%s)' % rng.choice(MT), rand_avp(rng, k)])))
+    enc = ['ENC\t%s\t' % v for (_, v) in vals]
+    r1 = run_compare(ctx, rep, enc, [t for (t, _) in vals], lambda c, r: r)
+    dec, exp, tg = [], [], []
+    for i, (t, v) in enumerate(vals):
+        r = r1['release'][i]
+        if not r.startswith('Ok '):
+            rep.fail('encoding a message of the encodable domain did not return', case=enc[i], executor='release', result=r[:200])
+            continue
+        hx = r[3:]
+        dec.append('DEC\t7\t' + hx); exp.append('Ok %s rem=0' % ctrl_with_length(v, len(hx) // 2)); tg.append(t)
+    r2 = run_compare(ctx, rep, dec, tg, lambda c, r: r)
+    for w in IMPLS:
+        for i, c in enumerate(dec):
+            if r2[w][i] != exp[i]:
+                rep.fail('decode_strict(encode(m)) != m[length := |encode(m)|]', case=c, executor=w,
+                         got=r2[w][i][:400], expected=exp[i][:400])
+    # single AVPs
+    avs = []
+    for k in KIND_LIST + ['Hidden']:
+        for _ in range(ctx.scale(60, 600)):
+            avs.append(rand_avp(rng, k))
+    ea = ['ENCA\t%s\t' % a for a in avs]
+    r3 = run_compare(ctx, rep, ea, ['avp_' + avp_kind(a) for a in avs], lambda c, r: r)
+    da, ex = [], []
+    for i, a in enumerate(avs):
+        r = r3['release'][i]
+        if not r.startswith('Ok '):
+            rep.fail('encoding an AVP of the encodable domain did not return', case=ea[i], executor='release', result=r[:200])
+            continue
+        da.append('AVPS\t' + r[3:].split(' ')[0]); ex.append('[Ok(%s)] rem=0' % a)
+    r4 = run_compare(ctx, rep, da, ['avps_rt'] * len(da), lambda c, r: r)
+    for w in IMPLS:
+        for i, c in enumerate(da):
+            if r4[w][i] != ex[i]:
+                rep.fail('decode_avps(encode(a)) != [Ok(a)]', case=c, executor=w, got=r4[w][i][:400], expected=ex[i][:400])
+    rep.notes['rule'] = ('random control messages (0-20 AVPs, all 39 kinds + Hidden, field extremes, payload sizes up to 1017, a 65535-octet '
+                         'message) through ENC then DEC under the strictest options, and single AVPs through ENCA then AVPS; distinct by case line')
+    rep.notes['channels'] = ['ENC', 'DEC', 'ENCA', 'AVPS']
+    return rep
+
+
+# =============================================================================== C04
+def run_c04(ctx):
+    rep = Report()
+    rng = ctx.rng
+    vals = []
+    # grid: all flag combinations x sizes x offsets x both priorities
+    for bits in range(16):
+        Lb, S, O, P = bool(bits & 1), bool(bits & 2), bool(bits & 4), bool(bits & 8)
+        for nd in (1, 2, 3, 17):
+            for off in ([0, nd - 1, nd // 2] if O else [None]):
+                nsnr = (extreme(rng, 16), extreme(rng, 16)) if S else None
+                ln = data_total(True, nsnr, off, nd) if Lb else None
+                vals.append(('grid', (P, ln, extreme(rng, 16), extreme(rng, 16), nsnr, off, rbytes(rng, nd))))
+    for _ in range(ctx.scale(6000, 60000)):
+        vals.append(('rand', rand_data(rng)))
+    enc = ['ENC\t%s\t' % data_text(*v) for (_, v) in vals]
+    r1 = run_compare(ctx, rep, enc, [t for (t, _) in vals], lambda c, r: r)
+    dec, exp = [], []
+    for i, (t, v) in enumerate(vals):
+        r = r1['release'][i]
+        if not r.startswith('Ok '):
+            rep.fail('encoding a data message did not return', case=enc[i], executor='release', result=r[:200])
+            continue
+        P, ln, tid, sid, nsnr, off, payload = v
+        dec.append('DEC\t%d\t%s' % (rng.randrange(8), r[3:]))
+        exp.append('Ok %s rem=0' % data_text(P, ln, tid, sid, nsnr, None, payload[(off or 0):]))
+    r2 = run_compare(ctx, rep, dec, ['dec'] * len(dec), lambda c, r: r)
+    for w in IMPLS:
+        for i, c in enumerate(dec):
+            if r2[w][i] != exp[i]:
+                rep.fail('decode(encode(d)) != d[offset := None, data := data[n..]]', case=c, executor=w,
+                         got=r2[w][i][:400], expected=exp[i][:400])
+    rep.notes['rule'] = ('data messages: 16 L/S/O/P combinations x sizes x offset sizes (0, |data|-1, middle) grid plus random values '
+                         '(length absent or exact), ENC then DEC under a random option set')
+    rep.notes['channels'] = ['ENC', 'DEC']
+    return rep
+
+
+# =============================================================================== C05
+def c05_obs(c, r):
+    ch = c.split('\t', 1)[0]
+    if ch in ('DEC', 'DEC0'):
+        return r if cls(r) == 'Ok' else cls(r)
+    if ch == 'AVPS':
+        if cls(r) != 'List':
+            return cls(r)
+        body = strip_rem(r)[1:-1]
+        return [e if e.startswith('Ok(') else 'Err' for e in lib_split(body)]
+    if ch == 'TYPE':
+        return strip_rem(r) if r.startswith('Ok(') else cls(r) if not r.startswith('Err(') else 'Err'
+    return r
+
+
+def lib_split(s):
+    parts, depth, start = [], 0, 0
+    if s == '':
+        return []
+    for i, ch in enumerate(s):
+        if ch in '([':
+            depth += 1
+        elif ch in ')]':
+            depth -= 1
+        elif ch == ';' and depth == 0:
+            parts.append(s[start:i]); start = i + 1
+    parts.append(s[start:])
+    return parts
+
+
+def run_c05(ctx):
+    rep = Report()
+    rng = ctx.rng
+    cases, tags = [], []
+    for (t, b) in corpus.dec_corpus(rng, ctx.scale(14000, 200000), ctx.thorough):
+        cases.append('DEC\t%d\t%s' % (rng.randrange(8), b.hex())); tags.append(t)
+    for (t, b) in corpus.avps_corpus(rng, ctx.scale(5000, 60000), ctx.thorough):
+        cases.append('AVPS\t%s' % b.hex()); tags.append('avps_' + t)
+    for (t, b) in corpus.guard_grid(rng, ctx.thorough):
+        cases.append('TYPE\t%d\t%s' % (int.from_bytes(b[4:6], 'big'), b[6:].hex())); tags.append('type_grid')
+    # UTF-8 boundary sets inside string-typed AVPs
+    for s in utf8_boundary(rng, ctx.thorough):
+        cases.append('AVPS\t%s' % avp_rec(rng.choice([8, 21, 22, 23]), s).hex()); tags.append('utf8')
+    # full flag-word sweep over a fixed control and data remainder
+    cb = ctrl_bytes(mt_record(rng) + good_record(rng, 7))
+    db = data_bytes(b'\xaa\xbb\xcc', True, True, True, False, None, 1, b'\x00', 1, 2, 3, 4)
+    step = 1 if ctx.thorough else 1
+    for w in range(0, 65536, step):
+        base = cb if (w >> 8) & 1 else data_bytes(b'\xaa\xbb\xcc', bool(w >> 9 & 1), bool(w >> 12 & 1), bool(w >> 14 & 1), False, None, 1, b'\x00')
+        cases.append('DEC\t%d\t%s' % (rng.randrange(8), (be(w, 2) + base[2:]).hex())); tags.append('flag_sweep')
+    run_compare(ctx, rep, cases, tags, c05_obs, nontrivial=lambda c, m: len(c) > 14)
+    conformance(rep)
+    rep.notes['rule'] = ('DEC/AVPS/TYPE over the structured corpus, UTF-8 boundary strings, and all 65536 flag words; compared on accept/reject and '
+                         'the accepted value in full (error identity is left to C15/C20); the reference is the extracted model, proved equal to the Spec')
+    rep.notes['channels'] = ['DEC', 'AVPS', 'TYPE']
+    return rep
+
+
+def utf8_boundary(rng, thorough):
+    out = [bytes([a]) for a in range(256)]
+    for a in range(0x80, 256, 1 if thorough else 3):
+        for b2 in (0x00, 0x7f, 0x80, 0x8f, 0x90, 0x9f, 0xa0, 0xbf, 0xc0, 0xff):
+            out.append(bytes([a, b2]))
+            out.append(bytes([a, b2, 0x80]))
+            out.append(bytes([a, b2, 0x80, 0x80]))
+            out.append(bytes([a, b2, 0xbf, 0xbf, 0x41]))
+    for _ in range(300 if not thorough else 3000):
+        s = bytearray(rutf8(rng, rng.randrange(1, 12)))
+        if rng.random() < 0.6 and s:
+            s[rng.randrange(len(s))] = rng.getrandbits(8)
+        out.append(bytes(s))
+    return [s for s in out if len(s) > 0]
+
+
+# =============================================================================== C06
+def run_c06(ctx):
+    rep = Report()
+    rng = ctx.rng
+    cases, tags = [], []
+    for (t, v) in big_values(rng):
+        cases.append('ENC\t%s\t' % v); tags.append(t)
+    for _ in range(ctx.scale(3000, 40000)):
+        cases.append('ENC\t%s\t' % rand_ctrl(rng, first_mt=rng.random() < 0.8)); tags.append('ctrl')
+    for _ in range(ctx.scale(3000, 40000)):
+        P, ln, tid, sid, nsnr, off, payload = rand_data(rng)
+        if rng.random() < 0.4:   # arbitrary (not necessarily consistent) length / offset fields are echoed
+            ln = rng.choice([None, extreme(rng, 16)]); off = rng.choice([None, extreme(rng, 16)])
+        if rng.random() < 0.1:
+            payload = b''
+        cases.append('ENC\t%s\t' % data_text(P, ln, tid, sid, nsnr, off, payload)); tags.append('data')
+    for k in KIND_LIST + ['Hidden']:
+        for _ in range(ctx.scale(80, 800)):
+            cases.append('ENCA\t%s\t' % rand_avp(rng, k)); tags.append('avp_' + k)
+    for k in BITMASK:
+        for x in (0, 1):
+            for y in (0, 1):
+                cases.append('BITS\t%s\t%d\t%d' % (k, x, y)); tags.append('bits_new')
+        for i in range(32):
+            cases.append('ENCA\t%s(%d)\t' % (k, 1 << i)); tags.append('bitmask_onehot')
+    # empty optional strings / empty variable payloads are representable values too
+    for a in ['ResultCode(1,Generic,x)', 'Q931CauseCode(1,2,x)', 'HostName()', 'VendorName()', 'Hidden(5,)']:
+        cases.append('ENCA\t%s\t' % a); tags.append('edge_empty')
+    run_compare(ctx, rep, cases, tags, lambda c, r: r)
+    conformance(rep)
+    rep.notes['rule'] = 'ENC/ENCA octet-for-octet on random control/data messages and every AVP kind (incl. bitmask words, empty edge values, size limits)'
+    rep.notes['channels'] = ['ENC', 'ENCA', 'BITS']
+    return rep
+
+
+def generic_search(runfn):
+    def search(ctx, rep):
+        sub = runfn(ctx)
+        rep.search_evals += sub.evaluations
+        rep.failures += sub.failures
+    return search
+
+
+PROPS.update({
+    'C02': {'run': run_c02, 'search': generic_search(run_c02),
+            'assumes': ['memory safety of the compiled unsafe blocks is represented by "every reader call is within its contract"; what rustc does with an in-contract get_unchecked is trusted']},
+    'C03': {'run': run_c03, 'search': generic_search(run_c03), 'assumes': []},
+    'C04': {'run': run_c04, 'search': generic_search(run_c04), 'assumes': []},
+    'C05': {'run': run_c05, 'search': generic_search(run_c05), 'assumes': ['the reference decoder is the Coq Spec, executed through the extracted Model that is proved equal to it']},
+    'C06': {'run': run_c06, 'search': generic_search(run_c06), 'assumes': []},
+})
+
+
+# =============================================================================== C07
+def walk_ctrl(b):
+    """independent length walker over an emitted control message: -> None if exact, else reason"""
+    if len(b) < 12:
+        return 'shorter than a header'
+    if int.from_bytes(b[2:4], 'big') != len(b):
+        return 'Length field %d != %d octets emitted' % (int.from_bytes(b[2:4], 'big'), len(b))
+    pos = 12
+    while pos < len(b):
+        if pos + 6 > len(b):
+            return 'AVP header runs past the message at %d' % pos
+        L = ((b[pos] >> 6) << 8) | b[pos + 1]
+        if L < 6 or pos + L > len(b):
+            return 'AVP length %d at %d does not tile the body' % (L, pos)
+        pos += L
+    return None
+
+
+def run_c07(ctx):
+    rep = Report()
+    rng = ctx.rng
+    cases, tags, expect = [], [], []   # expect: 'fit' | 'oversize' | None (unknown)
+    # AVP sizes straddling 255/256 and 1023/1024
+    for k in ['HostName', 'Challenge', 'PrivateGroupId', 'ProxyAuthenName']:
+        for n in [1, 249, 250, 251, 255, 256, 1016, 1017, 1018, 1019, 1100, 2000, 70000 if ctx.thorough else 1500]:
+            cases.append('ENCA\t%s(%s)\t%s' % (k, rbytes(rng, n).hex(), rbytes(rng, rng.randrange(0, 4)).hex()))
+            tags.append('avp_bytes_%d' % n); expect.append('fit' if 6 + n <= 1023 else 'oversize')
+    for n in [1, 250, 1017, 1018, 1300]:
+        cases.append('ENCA\tVendorName(%s)\t' % rutf8(rng, n).hex()); tags.append('avp_str_%d' % n); expect.append('fit' if n <= 1017 else 'oversize')
+        cases.append('ENCA\tHidden(9,%s)\t' % rbytes(rng, n).hex()); tags.append('avp_hidden_%d' % n); expect.append('fit' if n <= 1017 else 'oversize')
+        cases.append('ENCA\tResultCode(1,Generic,x%s)\t' % rutf8(rng, n).hex()); tags.append('avp_rc_%d' % n); expect.append('fit' if n + 4 <= 1017 else 'oversize')
+        cases.append('ENCA\tQ931CauseCode(1,2,x%s)\t' % rutf8(rng, n).hex()); tags.append('avp_q931_%d' % n); expect.append('fit' if n + 3 <= 1017 else 'oversize')
+    for k in KIND_LIST + ['Hidden']:
+        for _ in range(ctx.scale(40, 400)):
+            cases.append('ENCA\t%s\t%s' % (rand_avp(rng, k), rbytes(rng, rng.randrange(0, 3)).hex())); tags.append('avp_' + k); expect.append('fit')
+    # messages straddling 65535: 12 + 8 + 63*1023 = 64469 ; 1066 left = 1023 + 43 (payload 37)
+    base = ['MessageType(Hello)'] + ['HostName(%s)' % rbytes(rng, 1017).hex() for _ in range(64)]
+    for last in [35, 36, 37, 38, 39, 200]:
+        avps = base + ['Challenge(%s)' % rbytes(rng, last).hex()]
+        total = 12 + 8 + 64 * 1023 + 6 + last
+        cases.append('ENC\t%s\t' % ctrl_text(0, 1, 2, 3, 4, avps)); tags.append('msg_%d' % total)
+        expect.append('fit' if total <= 65535 else 'oversize')
+    for _ in range(ctx.scale(1500, 20000)):
+        cases.append('ENC\t%s\t%s' % (rand_ctrl(rng, first_mt=rng.random() < 0.7), rbytes(rng, rng.randrange(0, 3)).hex()))
+        tags.append('ctrl'); expect.append('fit')
+    # a message containing one oversize AVP
+    cases.append('ENC\t%s\t' % ctrl_text(0, 1, 2, 3, 4, ['MessageType(Hello)', 'HostName(%s)' % rbytes(rng, 1018).hex()]))
+    tags.append('msg_with_oversize_avp'); expect.append('oversize')
+    # hide asserts the original length fits
+    for n in [1, 1000, 1016, 1017, 1018, 1500]:
+        cases.append('HIDE\tHostName(%s)\t73\t01020304\t\t%s' % (rbytes(rng, n).hex(), rbytes(rng, 16).hex()))
+        tags.append('hide_%d' % n); expect.append('fit' if 6 + n <= 1023 else 'oversize')
+    res = run_compare(ctx, rep, cases, tags, lambda c, r: r)
+    for w in IMPLS:
+        for i, c in enumerate(cases):
+            r = res[w][i]
+            ch = c.split('\t', 1)[0]
+            pre = len(c.split('\t')[2]) // 2 if ch in ('ENC', 'ENCA') else 0
+            if expect[i] == 'oversize':
+                if not r.startswith('PANIC'):
+                    rep.fail('an oversize value was encoded instead of being refused', case=c[:300] + '...', executor=w, result=r[:120])
+                continue
+            if not r.startswith('Ok '):
+                rep.fail('encoding a value that fits did not return', case=c[:300], executor=w, result=r[:120])
+                continue
+            if ch == 'ENC':
+                why = walk_ctrl(bytes.fromhex(r[3:])[pre:])
+                if why:
+                    rep.fail('emitted control message has an inexact length field: ' + why, case=c[:300], executor=w, result=r[:200])
+            elif ch == 'ENCA':
+                hx, gl = r[3:].split(' glen=')
+                b = bytes.fromhex(hx)[pre:]
+                L = ((b[0] >> 6) << 8) | b[1]
+                if L != len(b):
+                    rep.fail('AVP length field %d != %d octets emitted' % (L, len(b)), case=c[:300], executor=w, result=r[:200])
+                if len(b) != 6 + int(gl):
+                    rep.fail('|encode(a)| = %d != 6 + get_length() = %d' % (len(b), 6 + int(gl)), case=c[:300], executor=w, result=r[:200])
+    rep.notes['rule'] = ('ENCA with payloads straddling 255/256 and 1017/1018, ENC with totals straddling 65535/65536, HIDE straddling 1017/1018, '
+                         'random values; emitted octets parsed by an independent length walker; PANIC vs return compared')
+    rep.notes['channels'] = ['ENC', 'ENCA', 'HIDE']
+    return rep
+
+
+# =============================================================================== C08
+def run_c08(ctx):
+    rep = Report()
+    rng = ctx.rng
+    items = [(t, b) for (t, b) in corpus.dec_corpus(rng, ctx.scale(6000, 80000), ctx.thorough)]
+    opts = [rng.randrange(8) for _ in items]
+    s1 = ['DEC\t%d\t%s' % (o, b.hex()) for o, (_, b) in zip(opts, items)]
+    r1 = run_compare(ctx, rep, s1, [t for (t, _) in items], lambda c, r: r if cls(r) == 'Ok' else cls(r))
+    sfx = [rbytes(rng, rng.choice([1, 2, 6, 12, 40])) for _ in items]
+    s2 = ['DEC\t%d\t%s' % (o, (b + s).hex()) for o, (_, b), s in zip(opts, items, sfx)]
+    r2 = run_compare(ctx, rep, s2, ['sfx_' + t for (t, _) in items], lambda c, r: r if cls(r) == 'Ok' else cls(r))
+    nacc = 0
+    for w in IMPLS:
+        for i, (t, b) in enumerate(items):
+            a = r1[w][i]
+            if cls(a) != 'Ok' or len(b) < 2:
+                continue
+            is_ctrl = bool(b[0] & 1)
+            has_len = bool(b[0] & 2)
+            if not (is_ctrl or has_len):
+                continue
+            nacc += 1
+            x = r2[w][i]
+            if strip_rem(x) != strip_rem(a) or get_rem(x) != get_rem(a) + len(sfx[i]):
+                rep.fail('octets after the declared end changed the result or the consumed length', case=s2[i], executor=w,
+                         without_suffix=a[:300], with_suffix=x[:300])
+    rep.notes['accepted_with_declared_length'] = nacc // 2
+    # back-to-back messages from one reader
+    seqs, exps = [], []
+    single = []
+    groups = []
+    for _ in range(ctx.scale(500, 5000)):
+        k = rng.randrange(1, 6)
+        g = []
+        for _ in range(k):
+            if rng.random() < 0.6:
+                g.append(rand_ctrl(rng, small=True))
+            else:
+                P, ln, tid, sid, nsnr, off, payload = rand_data(rng)
+                nd = len(payload)
+                ln = data_total(True, nsnr, off, nd)
+                g.append(data_text(P, ln, tid, sid, nsnr, off, payload))
+        groups.append(g)
+        single += ['ENC\t%s\t' % m for m in g]
+    e = run_compare(ctx, rep, single, ['enc_for_seq'] * len(single), lambda c, r: r)
+    pos = 0
+    seq_cases, seq_exp = [], []
+    for g in groups:
+        hx = ''
+        ok = True
+        for m in g:
+            r = e['release'][pos]; pos += 1
+            if not r.startswith('Ok '):
+                ok = False
+                continue
+            hx += r[3:]
+        if ok:
+            seq_cases.append('DECSEQ\t7\t' + hx)
+    rs = run_compare(ctx, rep, seq_cases, ['decseq'] * len(seq_cases), lambda c, r: r)
+    # each message decoded alone must equal the corresponding element of the sequence
+    pos = 0
+    alone = []
+    for g in groups:
+        for m in g:
+            r = e['release'][pos]; pos += 1
+            alone.append('DEC\t7\t' + (r[3:] if r.startswith('Ok ') else ''))
+    ra = ctx.runner.run(alone, IMPLS)
+    for w in IMPLS:
+        pos = 0
+        for gi, g in enumerate(groups):
+            exp = [strip_rem(ra[w][pos + j]) for j in range(len(g))]
+            pos += len(g)
+            if gi >= len(rs[w]):
+                continue
+            got = [strip_rem(x) for x in rs[w][gi].split(' | ')]
+            if got != exp:
+                rep.fail('messages packed back to back did not decode one after another', case=seq_cases[gi][:600], executor=w,
+                         got=rs[w][gi][:400], expected=' | '.join(exp)[:400])
+    # AVP records: decode of a concatenation = concatenation of decodes
+    recsets = []
+    for _ in range(ctx.scale(2500, 30000)):
+        k = rng.randrange(1, 7)
+        recs = []
+        for _ in range(k):
+            c = rng.random()
+            if c < 0.6:
+                recs.append(good_record(rng))
+            elif c < 0.85:
+                recs.append(bad_record(rng)[0])
+            else:
+                recs.append(avp_rec(rng.randrange(0, 45), rbytes(rng, rng.choice([0, 16, 5])), h=1))
+        recsets.append(recs)
+    flat = ['AVPS\t' + r.hex() for rs_ in recsets for r in rs_]
+    cat = ['AVPS\t' + b''.join(rs_).hex() for rs_ in recsets]
+    rf = run_compare(ctx, rep, flat, ['avp_record'] * len(flat), lambda c, r: r)
+    rc = run_compare(ctx, rep, cat, ['avp_concat'] * len(cat), lambda c, r: r)
+    for w in IMPLS:
+        pos = 0
+        for i, rs_ in enumerate(recsets):
+            parts = []
+            for _ in rs_:
+                parts += lib_split(strip_rem(rf[w][pos])[1:-1]); pos += 1
+            got = lib_split(strip_rem(rc[w][i])[1:-1])
+            if got != parts or get_rem(rc[w][i]) != 0:
+                rep.fail('decode_avps(r1++..++rk) != decode_avps(r1)++..++decode_avps(rk)', case=cat[i][:600], executor=w,
+                         got=rc[w][i][:400], expected=';'.join(parts)[:400])
+    rep.notes['rule'] = ('accepted inputs re-decoded with random suffixes (value and remaining length), 1-5 messages packed back to back and '
+                         'decoded in sequence from one SliceReader, 1-6 well-delimited AVP records (good, bad, hidden) decoded alone and concatenated')
+    rep.notes['channels'] = ['DEC', 'DECSEQ', 'AVPS', 'ENC']
+    return rep
+
+
+# =============================================================================== C09
+def run_c09(ctx):
+    rep = Report()
+    rng = ctx.rng
+
+    def rand_msg():
+        if rng.random() < 0.6:
+            return rand_ctrl(rng, small=rng.random() < 0.7)
+        return data_text(*rand_data(rng))
+    vals = [rand_msg() for _ in range(ctx.scale(3000, 40000))]
+    pre = []
+    for _ in vals:
+        c = rng.random()
+        if c < 0.3:
+            pre.append(rbytes(rng, rng.randrange(1, 30)))
+        elif c < 0.6:
+            pre.append(corpus.rand_valid_ctrl_bytes(rng, rng.randrange(0, 3)))  # a prefix that itself looks like a message
+        else:
+            pre.append(rbytes(rng, rng.choice([1, 2, 3, 255, 256, 1023, 1024])))
+    a = ['ENC\t%s\t' % v for v in vals]
+    b = ['ENC\t%s\t%s' % (v, p.hex()) for v, p in zip(vals, pre)]
+    ra = run_compare(ctx, rep, a, ['enc_empty'] * len(a), lambda c, r: r)
+    rb = run_compare(ctx, rep, b, ['enc_prefix'] * len(b), lambda c, r: r)
+    for w in IMPLS:
+        for i in range(len(vals)):
+            x, y = ra[w][i], rb[w][i]
+            if cls(x) == 'BADCASE':
+                continue
+            if x.startswith('Ok ') != y.startswith('Ok ') or (x.startswith('Ok ') and y[3:] != pre[i].hex() + x[3:]):
+                rep.fail('enc_into(p, v) != p ++ encode(v)', case=b[i][:600], executor=w, into_empty=x[:300], into_prefix=y[:300])
+    # AVPs with prefixes
+    avs = [rand_avp(rng) for _ in range(ctx.scale(2000, 20000))]
+    pa = [rbytes(rng, rng.randrange(1, 40)) for _ in avs]
+    a2 = ['ENCA\t%s\t' % v for v in avs]
+    b2 = ['ENCA\t%s\t%s' % (v, p.hex()) for v, p in zip(avs, pa)]
+    ra2 = run_compare(ctx, rep, a2, ['enca_empty'] * len(a2), lambda c, r: r)
+    rb2 = run_compare(ctx, rep, b2, ['enca_prefix'] * len(b2), lambda c, r: r)
+    for w in IMPLS:
+        for i in range(len(avs)):
+            x, y = ra2[w][i].split(' glen=')[0], rb2[w][i].split(' glen=')[0]
+            if x.startswith('Ok ') != y.startswith('Ok ') or (x.startswith('Ok ') and y[3:] != pa[i].hex() + x[3:]):
+                rep.fail('enc_into(p, a) != p ++ encode(a)', case=b2[i][:600], executor=w, into_empty=x[:300], into_prefix=y[:300])
+    # sequences into one writer, VecWriter (ENCS) and the recording writer (ENCW)
+    groups = [[rand_msg() for _ in range(rng.randrange(1, 9))] for _ in range(ctx.scale(600, 6000))]
+    gp = [rbytes(rng, rng.choice([0, 0, 1, 7, 300])) for _ in groups]
+    s = ['ENCS\t%s\t%s' % (p.hex(), '\t'.join(g)) for g, p in zip(groups, gp)]
+    wv = ['ENCW\t%s\t%s' % (p.hex(), '\t'.join(g)) for g, p in zip(groups, gp)]
+    singles = ['ENC\t%s\t' % m for g in groups for m in g]
+    rs = run_compare(ctx, rep, s, ['encs'] * len(s), lambda c, r: r)
+    rw = run_compare(ctx, rep, wv, ['encw'] * len(wv), lambda c, r: r)
+    r1 = ctx.runner.run(singles, IMPLS)
+    for w in IMPLS:
+        pos = 0
+        for gi, g in enumerate(groups):
+            parts = [r1[w][pos + j] for j in range(len(g))]
+            pos += len(g)
+            if not all(p.startswith('Ok ') for p in parts):
+                continue
+            exp = gp[gi].hex() + ''.join(p[3:] for p in parts)
+            if rs[w][gi] != 'Ok ' + exp:
+                rep.fail('sequence into one writer != concatenation of the individual encodings', case=s[gi][:600], executor=w,
+                         got=rs[w][gi][:300], expected=exp[:300])
+            x = rw[w][gi]
+            if not x.startswith('Ok ') or x[3:].split(' log=')[0] != exp:
+                rep.fail('sequence into a recording writer != concatenation of the individual encodings', case=wv[gi][:600], executor=w,
+                         got=x[:300], expected=exp[:300])
+                continue
+            # every positional overwrite lies inside the value being encoded at the time
+            bounds, p0 = [], len(gp[gi])
+            for p in parts:
+                bounds.append((p0, p0 + len(p[3:]) // 2)); p0 += len(p[3:]) // 2
+            log = x.split(' log=')[1][1:-1]
+            for ent in (log.split(',') if log else []):
+                off, n, tot = (int(v) for v in ent.split(':'))
+                cur = next(((s0, e0) for (s0, e0) in bounds if s0 < tot <= e0), None)
+                if cur is None or off < cur[0] or off + n > tot:
+                    rep.fail('a positional overwrite fell outside the value being encoded', case=wv[gi][:600], executor=w,
+                             entry=ent, value_bounds=str(cur))
+    rep.notes['rule'] = ('messages and AVPs encoded into an empty writer and behind random prefixes (incl. prefixes that look like messages), sequences of '
+                         '1-8 messages into one VecWriter and into a recording Writer whose overwrite log is checked entry by entry')
+    rep.notes['channels'] = ['ENC', 'ENCA', 'ENCS', 'ENCW']
+    return rep
+
+
+PROPS.update({
+    'C07': {'run': run_c07, 'search': generic_search(run_c07), 'assumes': []},
+    'C08': {'run': run_c08, 'search': generic_search(run_c08), 'assumes': []},
+    'C09': {'run': run_c09, 'search': generic_search(run_c09), 'assumes': []},
+})
+
+
+# =============================================================================== C10
+def msg_of(r):
+    """'Ok <msg> rem=n' -> msg text"""
+    return strip_rem(r)[3:]
+
+
+def upto_ctrl_length(m):
+    return ctrl_with_length(m, 0) if m.startswith('C(') else m
+
+
+def run_c10(ctx):
+    rep = Report()
+    rng = ctx.rng
+    items = corpus.noncanonical(rng, ctx.scale(2500, 30000)) + corpus.dec_corpus(rng, ctx.scale(5000, 60000), ctx.thorough)
+    opts = [rng.randrange(8) for _ in items]
+    s1 = ['DEC\t%d\t%s' % (o, b.hex()) for o, (_, b) in zip(opts, items)]
+    r1 = run_compare(ctx, rep, s1, [t for (t, _) in items], lambda c, r: r if cls(r) == 'Ok' else cls(r))
+    for w in IMPLS:
+        idx = [i for i, (t, b) in enumerate(items)
+               if cls(r1[w][i]) == 'Ok' and (b[0] & 1 or not (b[0] & 0x40))]   # control, or data without the O bit
+        ms = [msg_of(r1[w][i]) for i in idx]
+        s2 = ['ENC\t%s\t' % m for m in ms]
+        r2 = run_compare(ctx, rep, s2, ['reenc'] * len(s2), lambda c, r: r, which=(w,))
+        s3, keep = [], []
+        for j, r in enumerate(r2[w]):
+            if not r.startswith('Ok '):
+                rep.fail('a decoded message could not be re-encoded', case=s1[idx[j]], executor=w, decoded=ms[j][:300], result=r[:100])
+                continue
+            s3.append('DEC\t7\t' + r[3:]); keep.append(j)
+        r3 = run_compare(ctx, rep, s3, ['redec'] * len(s3), lambda c, r: r, which=(w,))
+        s4, keep2 = [], []
+        for k, r in enumerate(r3[w]):
+            j = keep[k]
+            if cls(r) != 'Ok' or upto_ctrl_length(msg_of(r)) != upto_ctrl_length(ms[j]) or get_rem(r) != 0:
+                rep.fail('decode_strict(encode(m)) is not m (up to the control Length field)', case=s1[idx[j]], executor=w,
+                         decoded=ms[j][:300], redecoded=r[:300])
+                continue
+            if ms[j].startswith('C(') and ctrl_parts(msg_of(r))[0] != len(r2[w][j][3:]) // 2:
+                rep.fail('re-decoded control Length does not track the new size', case=s1[idx[j]], executor=w, redecoded=r[:300])
+            s4.append('ENC\t%s\t' % msg_of(r)); keep2.append(j)
+        r4 = run_compare(ctx, rep, s4, ['reenc2'] * len(s4), lambda c, r: r, which=(w,))
+        for k, r in enumerate(r4[w]):
+            j = keep2[k]
+            if r != r2[w][j]:
+                rep.fail('encode(m\') != encode(m): re-encoding drifts', case=s1[idx[j]], executor=w, first=r2[w][j][:300], second=r[:300])
+        rep.notes['accepted_chained_' + w] = len(idx)
+    rep.notes['rule'] = ('DEC (random option set) of non-canonical accepted inputs (reserved bits, M clear, surplus payload, short body tail, trailing '
+                         'octets, version != 2 with the check off) then ENC -> DEC strict -> ENC, every stage compared with the model')
+    rep.notes['channels'] = ['DEC', 'ENC']
+    return rep
+
+
+# =============================================================================== C11 / C12 / C13
+def hide_args(rng):
+    secret = rng.choice([b'', b's', rbytes(rng, rng.randrange(1, 9)), rbytes(rng, rng.choice([16, 55, 56, 64, 100]))])
+    rv = rbytes(rng, 4)
+    lp = rng.choice([b'', b'', rbytes(rng, rng.randrange(1, 41)), rbytes(rng, rng.choice([14, 15, 16, 30]))])
+    ap = rbytes(rng, 16)
+    return secret, rv, lp, ap
+
+
+def hide_values(ctx, n_per_kind):
+    rng = ctx.rng
+    out = []
+    for k in KIND_LIST:
+        for _ in range(n_per_kind):
+            out.append(rand_avp(rng, k, maxpay=rng.choice([40, 200, 990])))
+    # block counts 1..64 via HostName of chosen sizes, incl. exact multiples of 16
+    for blocks in list(range(1, 65)) if ctx.thorough else [1, 2, 3, 4, 8, 16, 33, 62, 63]:
+        for delta in (0, -1, 1):
+            n = 16 * blocks - 2 + delta
+            if 1 <= n <= 1006:
+                out.append('HostName(%s)' % rbytes(rng, n).hex())
+    return out
+
+
+def run_c11(ctx):
+    rep = Report()
+    rng = ctx.rng
+    vals = hide_values(ctx, ctx.scale(25, 250))
+    args = [hide_args(rng) for _ in vals]
+    for i, v in enumerate(vals):   # keep the wire form encodable: 2+|payload|+|lp| <= 1008
+        if len(v) // 2 + len(args[i][2]) > 950:
+            args[i] = (args[i][0], args[i][1], b'', args[i][3])
+    h = ['HIDE\t%s\t%s\t%s\t%s\t%s' % (v, a[0].hex(), a[1].hex(), a[2].hex(), a[3].hex()) for v, a in zip(vals, args)]
+    rh = run_compare(ctx, rep, h, ['hide_' + avp_kind(v) for v in vals], lambda c, r: r)
+    for w in IMPLS:
+        ok = [i for i in range(len(vals)) if rh[w][i].startswith('Ok Hidden(')]
+        for i in range(len(vals)):
+            if i not in set(ok):
+                rep.fail('hide did not return a Hidden AVP', case=h[i][:400], executor=w, result=rh[w][i][:200])
+        rv = ['REVEAL\t%s\t%s\t%s' % (rh[w][i][3:], args[i][0].hex(), args[i][1].hex()) for i in ok]
+        rr = run_compare(ctx, rep, rv, ['reveal'] * len(rv), lambda c, r: r, which=(w,))
+        for k, i in enumerate(ok):
+            if rr[w][k] != 'Ok ' + vals[i]:
+                rep.fail('reveal(hide(a)) != a', case=h[i][:400], executor=w, hidden=rh[w][i][:200], revealed=rr[w][k][:300])
+        # over the wire
+        ea = ['ENCA\t%s\t' % rh[w][i][3:] for i in ok]
+        re_ = run_compare(ctx, rep, ea, ['wire_enc'] * len(ea), lambda c, r: r, which=(w,))
+        da = ['AVPS\t' + r[3:].split(' ')[0] for r in re_[w]]
+        rd = run_compare(ctx, rep, da, ['wire_dec'] * len(da), lambda c, r: r, which=(w,))
+        rv2, keep = [], []
+        for k, i in enumerate(ok):
+            x = rd[w][k]
+            if x != '[Ok(%s)] rem=0' % rh[w][i][3:]:
+                rep.fail('hidden AVP did not survive encode/decode', case=ea[k][:400], executor=w, got=x[:300])
+                continue
+            rv2.append('REVEAL\t%s\t%s\t%s' % (x[4:-8], args[i][0].hex(), args[i][1].hex())); keep.append(i)
+        rr2 = run_compare(ctx, rep, rv2, ['wire_reveal'] * len(rv2), lambda c, r: r, which=(w,))
+        for k, i in enumerate(keep):
+            if rr2[w][k] != 'Ok ' + vals[i]:
+                rep.fail('reveal(decode(encode(hide(a)))) != a', case=h[i][:400], executor=w, revealed=rr2[w][k][:300])
+    # identity on the other variant
+    ident = []
+    for _ in range(ctx.scale(300, 3000)):
+        hd = 'Hidden(%d,%s)' % (rng.randrange(0, 45), rbytes(rng, rng.choice([0, 5, 16, 32])).hex())
+        a = hide_args(rng)
+        ident.append(('HIDE\t%s\t%s\t%s\t%s\t%s' % (hd, a[0].hex(), a[1].hex(), a[2].hex(), a[3].hex()), 'Ok ' + hd))
+        nh = rand_avp(rng, allow_hidden=False, maxpay=60)
+        ident.append(('REVEAL\t%s\t%s\t%s' % (nh, a[0].hex(), a[1].hex()), 'Ok ' + nh))
+    ri = run_compare(ctx, rep, [c for c, _ in ident], ['identity'] * len(ident), lambda c, r: r)
+    for w in IMPLS:
+        for (c, e), r in zip(ident, ri[w]):
+            if r != e:
+                rep.fail('hide of a hidden AVP / reveal of a non-hidden AVP is not the identity', case=c[:400], executor=w, got=r[:300])
+    rep.notes['rule'] = ('all 39 kinds, block counts 1..63 (thorough: 1..64 each with -1/0/+1 octets), empty/short/long secrets, empty and 1-40 octet '
+                         'length paddings: HIDE -> REVEAL, HIDE -> ENCA -> AVPS -> REVEAL, identity on the other variant')
+    rep.notes['channels'] = ['HIDE', 'REVEAL', 'ENCA', 'AVPS']
+    return rep
+
+
+def run_c12(ctx):
+    rep = Report()
+    rng = ctx.rng
+    vals = hide_values(ctx, ctx.scale(20, 200))
+    args = [hide_args(rng) for _ in vals]
+    h = ['HIDE\t%s\t%s\t%s\t%s\t%s' % (v, a[0].hex(), a[1].hex(), a[2].hex(), a[3].hex()) for v, a in zip(vals, args)]
+    rh = run_compare(ctx, rep, h, ['hide_' + avp_kind(v) for v in vals], lambda c, r: r)
+    # third, independent computation (Python, hashlib MD5) of RFC 2661 4.3 from the encoded payload
+    pay = ctx.runner.run(['ENCA\t%s\t' % v for v in vals], ('model',))['model']
+    for w in IMPLS:
+        for i, v in enumerate(vals):
+            if not pay[i].startswith('Ok '):
+                continue
+            payload = bytes.fromhex(pay[i][3:].split(' ')[0])[6:]
+            t = avp_type(v)
+            s, rv, lp, ap = args[i]
+            if 6 + len(payload) > 1023:
+                continue
+            exp = ref_hide_value(t, payload, s, rv, lp, ap)
+            want = 'Ok Hidden(%d,%s)' % (t, exp.hex())
+            if rh[w][i] != want:
+                rep.fail('hidden value differs from the RFC 2661 4.3 construction', case=h[i][:500], executor=w,
+                         got=rh[w][i][:300], expected=want[:300])
+            elif len(exp) != 16 * ((2 + len(payload) + len(lp) + 15) // 16):
+                rep.fail('hidden value length is not 16*ceil((2+|payload|+|lp|)/16)', case=h[i][:500], executor=w)
+    # alignment padding beyond what is needed is inert
+    inert = []
+    for i in range(0, len(vals), 3):
+        s, rv, lp, ap = args[i]
+        ap2 = bytes(x ^ 0xff for x in ap)
+        inert.append((i, 'HIDE\t%s\t%s\t%s\t%s\t%s' % (vals[i], s.hex(), rv.hex(), lp.hex(), ap2.hex())))
+    # reveal vs reference on arbitrary hidden values
+    rvl = []
+    for _ in range(ctx.scale(3000, 40000)):
+        t = rng.choice([7, 8, 0, 1, 12, 39, 36, rng.randrange(0, 42), rng.getrandbits(16)])
+        s = rng.choice([b'', b's', rbytes(rng, rng.randrange(1, 20))])
+        rv = rbytes(rng, 4)
+        c = rng.random()
+        if c < 0.6:
+            vp = valid_payload(rng, t) if t in TYPE_KIND else rbytes(rng, rng.randrange(0, 10))
+            plain = be(6 + len(vp), 2) + vp + rbytes(rng, rng.randrange(0, 20))
+            plain += bytes((16 - len(plain) % 16) % 16)
+            val = ref_encrypt_plain(t, plain, s, rv)
+        else:
+            val = rbytes(rng, rng.choice([0, 1, 15, 16, 17, 32, 48]))
+        rvl.append('REVEAL\tHidden(%d,%s)\t%s\t%s' % (t, val.hex(), s.hex(), rv.hex()))
+    run_compare(ctx, rep, rvl, ['reveal'] * len(rvl), lambda c, r: r)
+    md = ['MD5\t' + rbytes(rng, n).hex() for n in list(range(0, 130)) + [rng.randrange(0, 300) for _ in range(ctx.scale(300, 3000))]]
+    rm = run_compare(ctx, rep, md, ['md5'] * len(md), lambda c, r: r)
+    import hashlib
+    for w in IMPLS + ('model',):
+        rr = rm[w] if w in rm else None
+        if rr is None:
+            continue
+        for c, r in zip(md, rr):
+            if r != hashlib.md5(bytes.fromhex(c.split('\t')[1])).hexdigest():
+                rep.fail('MD5 digest differs from hashlib', case=c[:200], executor=w, got=r)
+    conformance(rep)
+    rep.notes['rule'] = ('HIDE of all 39 kinds / block counts / paddings compared octet for octet with the model and with a third computation in Python '
+                         '(hashlib MD5); REVEAL of crafted and random hidden values; MD5 channel on lengths 0..129 and random; non-trivial = all')
+    rep.notes['channels'] = ['HIDE', 'REVEAL', 'MD5', 'ENCA']
+    return rep
+
+
+def run_c13(ctx):
+    rep = Report()
+    rng = ctx.rng
+    cases, tags, must_err, ann = [], [], [], []
+    for _ in range(ctx.scale(12000, 150000)):
+        t = rng.choice([7, 7, 8, 0, 1, 12, 34, 35, 39, 36, rng.randrange(0, 42), rng.getrandbits(16)])
+        s = rng.choice([b'', b's', rbytes(rng, rng.randrange(1, 20))])
+        rv = rbytes(rng, 4)
+        c = rng.random()
+        me = False
+        if c < 0.35:
+            nblk = rng.choice([1, 1, 2, 3, 4])
+            avail = 16 * nblk - 2
+            # decrypted total sits at each boundary: available-1, available, available+1, 5, 6, 1023, 1024
+            tot = rng.choice([avail + 6 - 1, avail + 6, avail + 6 + 1, 5, 6, 7, 1023, 1024, 0, 65535, rng.randrange(0, 80)])
+            plain = be(tot & 0xffff, 2) + (valid_payload(rng, t) or b'') + rbytes(rng, 16 * nblk)
+            plain = plain[:16 * nblk]
+            val = ref_encrypt_plain(t, plain, s, rv)
+            me = tot < 6 or tot - 6 > avail
+            tag = 'crafted_len'
+        elif c < 0.5:
+            val = rbytes(rng, rng.choice([0, 1, 2, 15, 17, 31, 33]))
+            me = True
+            tag = 'misaligned_or_empty'
+        elif c < 0.8:
+            val = rbytes(rng, rng.choice([16, 16, 32, 48, 64, 1008, 1024]))
+            tag = 'random_wrong_key'
+        else:
+            vp = valid_payload(rng, t) if t in TYPE_KIND else rbytes(rng, 4)
+            plain = be(6 + len(vp), 2) + vp + rbytes(rng, rng.randrange(0, 18))
+            plain += bytes((16 - len(plain) % 16) % 16)
+            val = ref_encrypt_plain(t, plain, s, rv)
+            tag = 'well_formed'
+        cases.append('REVEAL\tHidden(%d,%s)\t%s\t%s' % (t, val.hex(), s.hex(), rv.hex()))
+        tags.append(tag); must_err.append(me); ann.append(t)
+    res = run_compare(ctx, rep, cases, tags, lambda c, r: 'RETURNS' if returns(r) else cls(r))
+    for w in IMPLS:
+        for i, c in enumerate(cases):
+            r = res[w][i]
+            if not returns(r):
+                rep.fail('reveal did not return Ok or Err: %s' % cls(r), case=c[:400], executor=w, result=r[:200])
+            elif r.startswith('Ok '):
+                if must_err[i]:
+                    rep.fail('reveal accepted an empty / misaligned value or a decrypted length that does not fit', case=c[:400], executor=w, result=r[:200])
+                elif r.startswith('Ok Hidden(') or avp_type(r[3:]) != ann[i]:
+                    rep.fail('reveal returned an AVP that is not of the announced attribute type', case=c[:400], executor=w, result=r[:200])
+    rep.notes['rule'] = ('REVEAL on hidden values with crafted decrypted lengths at every boundary (available-1/available/available+1, 5, 6, 1023, 1024), '
+                         'empty and misaligned values, random 16..1024-octet values under wrong keys, well-formed values; debug (abort capture) and release')
+    rep.notes['channels'] = ['REVEAL']
+    return rep
+
+
+PROPS.update({
+    'C10': {'run': run_c10, 'search': generic_search(run_c10), 'assumes': []},
+    'C11': {'run': run_c11, 'search': generic_search(run_c11), 'assumes': ['the md5 crate is modelled by Base/Md5.v (differentially checked); the theorems hold for every 16-octet hash']},
+    'C12': {'run': run_c12, 'search': generic_search(run_c12), 'assumes': ['the md5 crate is modelled by Base/Md5.v, validated by the RFC 1321 suite inside Coq and against hashlib at run time']},
+    'C13': {'run': run_c13, 'search': generic_search(run_c13), 'assumes': []},
+})
+
+
+# =============================================================================== C14
+def run_c14(ctx):
+    rep = Report()
+    rng = ctx.rng
+    bodies = [ctrl_bytes(mt_record(rng) + good_record(rng, 7))[2:],
+              data_bytes(b'\xaa\xbb', False, False, False, False)[2:]]
+    if ctx.thorough:
+        bodies += [ctrl_bytes(b'')[2:], data_bytes(b'\x01\x02\x03', True, True, True, True, None, 1, b'\x00')[2:],
+                   ctrl_bytes(mt_record(rng))[2:], rbytes(rng, 30)]
+    inputs = []
+    # every flag word over a control and a data remainder (the remainder is chosen to suit the word's L/S/O bits)
+    for w in range(65536):
+        if (w >> 8) & 1:
+            rest = bodies[0]
+        else:
+            rest = data_bytes(b'\xaa\xbb', bool(w >> 9 & 1), bool(w >> 12 & 1), bool(w >> 14 & 1), False, None, 1, b'\x07')[2:]
+        inputs.append(('flagword', be(w, 2) + rest))
+    for extra in bodies[2:]:
+        for w in range(0, 65536, 7):
+            inputs.append(('flagword_extra', be(w, 2) + extra))
+    for (t, b) in corpus.dec_corpus(rng, ctx.scale(2500, 30000), ctx.thorough):
+        inputs.append((t, b))
+    cases, tags = [], []
+    for (t, b) in inputs:
+        for o in range(8):
+            cases.append('DEC\t%d\t%s' % (o, b.hex())); tags.append(t)
+        cases.append('DEC0\t%s' % b.hex()); tags.append(t + '/try_read')
+    res = run_compare(ctx, rep, cases, tags, lambda c, r: r if cls(r) == 'Ok' else cls(r), nontrivial=lambda c, m: True)
+    for w in IMPLS:
+        R = res[w]
+        for k, (t, b) in enumerate(inputs):
+            r = R[9 * k:9 * k + 8]
+            d0 = R[9 * k + 8]
+            acc = [x if cls(x) == 'Ok' else None for x in r]
+            for o in range(8):
+                if acc[o] is None:
+                    continue
+                for o2 in range(8):
+                    if o2 & o == o2 and acc[o2] != acc[o]:
+                        rep.fail('accepted under options %d but not with the same value under the weaker options %d' % (o, o2),
+                                 case=cases[9 * k + o], executor=w, strong=r[o][:200], weak=r[o2][:200])
+            if (d0 if cls(d0) == 'Ok' else cls(d0)) != (r[2] if cls(r[2]) == 'Ok' else cls(r[2])):
+                rep.fail('try_read differs from try_read_validate with version checking alone', case=cases[9 * k + 8], executor=w,
+                         try_read=d0[:200], validate_version_only=r[2][:200])
+            if len(b) < 2:
+                continue
+            word = int.from_bytes(b[:2], 'big')
+            ver_bad = (word >> 4) & 0xf != 2
+            rsv_bad = bool(word & RESERVED_MASK)
+            unused_bad = bool(word & 0x100) and bool(word & 0xc000)
+            base_ok = acc[0] is not None
+            for o in range(8):
+                want_reject = (o & 2 and ver_bad) or (o & 1 and rsv_bad) or (o & 4 and unused_bad)
+                if base_ok and (acc[o] is None) != bool(want_reject):
+                    rep.fail('options %d: rejection does not match exactly the enabled checks (version_bad=%s reserved_bad=%s unused_bad=%s)'
+                             % (o, ver_bad, rsv_bad, unused_bad), case=cases[9 * k + o], executor=w, result=r[o][:200], unchecked=r[0][:200])
+                if not base_ok and acc[o] is not None:
+                    rep.fail('rejected with all checks off but accepted under options %d' % o, case=cases[9 * k + o], executor=w, result=r[o][:200])
+    # bits of a disabled check do not matter: flip version / reserved / (control) P,O bits under options 0
+    flips, ftags = [], []
+    pairs = []
+    for _ in range(ctx.scale(4000, 40000)):
+        b = bytearray(rng.choice([corpus.rand_valid_ctrl_bytes(rng, rng.randrange(0, 4)), corpus.rand_valid_data_bytes(rng)]))
+        word = int.from_bytes(b[:2], 'big')
+        choices = [1 << i for i in RESERVED_BITS] + [0x10, 0x20, 0x40, 0x80]
+        if word & 0x100:
+            choices += [0x4000, 0x8000]
+        w2 = word ^ rng.choice(choices)
+        b2 = bytes(be(w2, 2) + b[2:])
+        pairs.append((bytes(b), b2))
+        flips += ['DEC\t0\t' + bytes(b).hex(), 'DEC\t0\t' + b2.hex()]; ftags += ['flip_base', 'flip']
+    rf = run_compare(ctx, rep, flips, ftags, lambda c, r: r if cls(r) == 'Ok' else cls(r))
+    for w in IMPLS:
+        for k in range(len(pairs)):
+            a, b = rf[w][2 * k], rf[w][2 * k + 1]
+            if (a if cls(a) == 'Ok' else cls(a)) != (b if cls(b) == 'Ok' else cls(b)):
+                rep.fail('with every check off, a version/reserved/unused header bit changed the result', case=flips[2 * k + 1], executor=w,
+                         base=a[:200], flipped=b[:200])
+    rep.exhaustive = True
+    rep.notes['exhaustive_domain'] = 'all 65536 flag words x 8 option sets + try_read over a control and a data remainder'
+    rep.notes['rule'] = ('every flag word under all 8 option sets and the default entry point (exhaustive), the structured corpus under all 8 sets, '
+                         'single-bit flips of unchecked bits; lattice relations evaluated on the implementation results alone')
+    rep.notes['channels'] = ['DEC', 'DEC0']
+    return rep
+
+
+# =============================================================================== C15
+def run_c15(ctx):
+    rep = Report()
+    rng = ctx.rng
+    msgs = []
+    for _ in range(ctx.scale(5000, 60000)):
+        k = rng.choice([0, 1, 2, 3, 4, 6, 9, 12])
+        recs, bad = [], []
+        first = rng.random()
+        for i in range(k):
+            if i == 0 and first < 0.8:
+                recs.append(mt_record(rng)); bad.append(False)
+            elif i == 0 and first < 0.9:
+                recs.append(good_record(rng, nonmt=True)); bad.append(False)
+            elif rng.random() < 0.35 or (i == 0):
+                recs.append(bad_record(rng)[0]); bad.append(True)
+            else:
+                recs.append(good_record(rng, nonmt=rng.random() < 0.9)); bad.append(False)
+        tail = rbytes(rng, rng.randrange(1, 6)) if rng.random() < 0.15 else b''
+        msgs.append((recs, bad, tail))
+    if ctx.thorough:
+        for mask in range(64):   # every subset pattern of 6 records after a MessageType
+            recs = [mt_record(rng)] + [bad_record(rng)[0] if mask >> i & 1 else good_record(rng, nonmt=True) for i in range(6)]
+            msgs.append((recs, [False] + [bool(mask >> i & 1) for i in range(6)], b''))
+    flat = ['AVPS\t' + r.hex() for (recs, _, _) in msgs for r in recs]
+    full = ['DEC\t%d\t%s' % (rng.randrange(8) & 5 | 2, ctrl_bytes(b''.join(recs) + tail).hex()) for (recs, _, tail) in msgs]
+    rf = run_compare(ctx, rep, flat, ['record'] * len(flat), lambda c, r: r)
+    rm = run_compare(ctx, rep, full, ['message_%d_records' % len(m[0]) for m in msgs], lambda c, r: r)
+    for w in IMPLS:
+        pos = 0
+        for i, (recs, bad, tail) in enumerate(msgs):
+            alone = []
+            for _ in recs:
+                alone.append(strip_rem(rf[w][pos])[1:-1]); pos += 1
+            r = rm[w][i]
+            errs = [a[4:-1] for a in alone if a.startswith('Err(')]
+            first_mt = (not alone) or alone[0].startswith('Ok(MessageType(')
+            if not first_mt:
+                want = 'Err [ControlMessageTypeNotFirst]'
+                if r != want:
+                    rep.fail('first AVP is not a Message Type but the result is not [ControlMessageTypeNotFirst]', case=full[i][:600], executor=w, got=r[:300])
+            elif errs:
+                want = 'Err [%s]' % ','.join(errs)
+                if r != want:
+                    rep.fail('error list is not exactly one error per undecodable record, in wire order', case=full[i][:600], executor=w,
+                             got=r[:400], expected=want[:400])
+            else:
+                if cls(r) != 'Ok':
+                    rep.fail('every record decodes and the first is a Message Type, but the message was rejected', case=full[i][:600], executor=w, got=r[:300])
+                else:
+                    vals = ';'.join(a[3:-1] for a in alone)
+                    if '[%s]' % vals != ctrl_parts(msg_of(r))[5]:
+                        rep.fail('accepted message does not carry exactly the decoded records', case=full[i][:600], executor=w, got=r[:400], expected=vals[:400])
+            if cls(r) == 'ErrEmpty':
+                rep.fail('rejection with an empty error list', case=full[i][:600], executor=w)
+    # parsing stops only at an unusable length
+    stops = []
+    for _ in range(ctx.scale(800, 8000)):
+        recs = [mt_record(rng)] + [good_record(rng, nonmt=True) if rng.random() < 0.7 else bad_record(rng)[0] for _ in range(rng.randrange(0, 4))]
+        badlen = rng.choice([0, 1, 5, 1023, 500])
+        stopper = avp_rec(7, b'abc', length=badlen)
+        after = b''.join(good_record(rng) for _ in range(rng.randrange(0, 3)))
+        body = b''.join(recs) + stopper + after
+        if badlen >= 6 and badlen - 6 <= len(stopper) - 6 + len(after):
+            continue
+        stops.append((recs, body))
+    sa = ['AVPS\t' + b''.join(recs).hex() for (recs, _) in stops]
+    sb = ['AVPS\t' + body.hex() for (_, body) in stops]
+    ra = run_compare(ctx, rep, sa, ['stop_prefix'] * len(sa), lambda c, r: r)
+    rb = run_compare(ctx, rep, sb, ['stop_full'] * len(sb), lambda c, r: r)
+    for w in IMPLS:
+        for i in range(len(stops)):
+            pre = lib_split(strip_rem(ra[w][i])[1:-1])
+            got = lib_split(strip_rem(rb[w][i])[1:-1])
+            if got[:len(pre)] != pre or len(got) != len(pre) + 1 or not got[-1].startswith('Err(InvalidAVPLength('):
+                rep.fail('parsing did not stop exactly at the AVP with the unusable length', case=sb[i][:600], executor=w, got=rb[w][i][:400])
+    rep.notes['rule'] = ('control messages assembled from independently generated good and bad records (truncated, unknown type, unknown message type, vendor, '
+                         'bad UTF-8, bad error type, bad proxy type), first record MessageType / not / undecodable, ZLB; each record also decoded alone')
+    rep.notes['channels'] = ['DEC', 'AVPS']
+    return rep
+
+
+PROPS.update({
+    'C14': {'run': run_c14, 'search': generic_search(run_c14), 'assumes': []},
+    'C15': {'run': run_c15, 'search': generic_search(run_c15), 'assumes': []},
+})
+
+
+# =============================================================================== C16
+ASSIGNED_MT = {1: MT[0], 2: MT[1], 3: MT[2], 4: MT[3], 6: MT[4], 7: MT[5], 8: MT[6], 9: MT[7], 10: MT[8],
+               11: MT[9], 12: MT[10], 14: MT[11], 15: MT[12], 16: MT[13]}
+RFC_ATTR = set(range(0, 20)) | set(range(21, 40))
+
+
+def run_c16(ctx):
+    rep = Report()
+    rng = ctx.rng
+    cases, tags = [], []
+    for x in range(65536):
+        cases.append('AVPS\t' + avp_rec(0, be(x, 2)).hex()); tags.append('message_type_code')
+        cases.append('AVPS\t' + avp_rec(1, be(7, 2) + be(x, 2)).hex()); tags.append('error_type_code')
+        cases.append('AVPS\t' + avp_rec(29, be(x, 2)).hex()); tags.append('proxy_authen_type_code')
+        cases.append('CODE\t%d' % x); tags.append('result_code')
+        cases.append('AVPS\t' + avp_rec(x, bytes(32)).hex()); tags.append('attribute_type')
+        cases.append('AVPS\t' + avp_rec(1, be(x, 2)).hex()); tags.append('result_code_wire')
+    res = run_compare(ctx, rep, cases, tags, lambda c, r: r, nontrivial=lambda c, m: True)
+    for w in IMPLS:
+        R = res[w]
+        for x in range(65536):
+            mt, et, pa, code, at, rcw = R[6 * x:6 * x + 6]
+            def one(r):
+                return strip_rem(r)[1:-1]
+            # message type
+            if x in ASSIGNED_MT:
+                if one(mt) != 'Ok(MessageType(%s))' % ASSIGNED_MT[x]:
+                    rep.fail('message type code %d is not accepted as %s' % (x, ASSIGNED_MT[x]), case=cases[6 * x], executor=w, got=mt[:200])
+            elif one(mt).startswith('Ok('):
+                rep.fail('unassigned message type code %d accepted' % x, case=cases[6 * x], executor=w, got=mt[:200])
+            if x < 9:
+                if one(et) != 'Ok(ResultCode(7,%s,-))' % ET[x]:
+                    rep.fail('error type code %d is not accepted as %s' % (x, ET[x]), case=cases[6 * x + 1], executor=w, got=et[:200])
+            elif one(et).startswith('Ok('):
+                rep.fail('unassigned error type code %d accepted' % x, case=cases[6 * x + 1], executor=w, got=et[:200])
+            if x < 6:
+                if one(pa) != 'Ok(ProxyAuthenType(%s))' % PA[x]:
+                    rep.fail('proxy authen type code %d is not accepted as %s' % (x, PA[x]), case=cases[6 * x + 2], executor=w, got=pa[:200])
+            elif one(pa).startswith('Ok('):
+                rep.fail('unassigned proxy authen type code %d accepted' % x, case=cases[6 * x + 2], executor=w, got=pa[:200])
+            want = 'stop=%s cdn=%s raw=%d' % (SC[x] if x < 8 else '-', CD[x] if x < 12 else '-', x)
+            if code != want:
+                rep.fail('result code %d: typed views / raw value wrong' % x, case=cases[6 * x + 3], executor=w, got=code, expected=want)
+            known = not one(at).startswith('Err(UnknownAvp(')
+            if known != (x in RFC_ATTR):
+                rep.fail('attribute type %d: dispatch %s but RFC 2661 says %s' % (x, 'known' if known else 'unknown', 'assigned' if x in RFC_ATTR else 'unassigned'),
+                         case=cases[6 * x + 4], executor=w, got=at[:200])
+            if one(rcw) != 'Ok(ResultCode(%d,-))' % x:
+                rep.fail('result code %d is not kept raw' % x, case=cases[6 * x + 5], executor=w, got=rcw[:200])
+    # re-encode: every accepted code encodes back to the same number; every named value to its RFC number
+    enc, exp = [], []
+    for x, n in ASSIGNED_MT.items():
+        enc.append('ENCA\tMessageType(%s)\t' % n); exp.append(avp_rec(0, be(x, 2)).hex())
+    for x, n in enumerate(ET):
+        enc.append('ENCA\tResultCode(7,%s,-)\t' % n); exp.append(avp_rec(1, be(7, 2) + be(x, 2)).hex())
+    for x, n in enumerate(PA):
+        enc.append('ENCA\tProxyAuthenType(%s)\t' % n); exp.append(avp_rec(29, be(x, 2)).hex())
+    for x in list(range(0, 70000, 257)) + [65535]:
+        x &= 0xffff
+        enc.append('ENCA\tResultCode(%d,-)\t' % x); exp.append(avp_rec(1, be(x, 2)).hex())
+    for x, n in enumerate(SC):
+        enc.append('CODEN\tstop\t%s' % n); exp.append(str(x))
+    for x, n in enumerate(CD):
+        enc.append('CODEN\tcdn\t%s' % n); exp.append(str(x))
+    re_ = run_compare(ctx, rep, enc, ['named_value_encode'] * len(enc), lambda c, r: r)
+    for w in IMPLS:
+        for c, e, r in zip(enc, exp, re_[w]):
+            got = r[3:].split(' ')[0] if r.startswith('Ok ') else r
+            if got != e:
+                rep.fail('named value does not encode to its RFC 2661 number', case=c, executor=w, got=r[:200], expected=e)
+    rep.exhaustive = True
+    rep.notes['exhaustive_domain'] = 'all 65536 codes for message type, error type, proxy authen type, result code (typed views and wire), attribute type'
+    rep.notes['rule'] = 'exhaustive sweep of every 16-bit code of each enumerated field through the implementation, plus every named value encoded'
+    rep.notes['channels'] = ['AVPS', 'CODE', 'CODEN', 'ENCA']
+    return rep
+
+
+# =============================================================================== C17
+def run_c17(ctx):
+    rep = Report()
+    rng = ctx.rng
+    cases, tags = [], []
+    for k in BITMASK:
+        for x in (0, 1):
+            for y in (0, 1):
+                cases.append('BITS\t%s\t%d\t%d' % (k, x, y)); tags.append('new')
+    words = [1 << i for i in range(32)] + [0xffffffff ^ (1 << i) for i in range(32)] + [0, 0xffffffff, 0x40, 0x80, 0xc0]
+    words += [rng.getrandbits(32) for _ in range(ctx.scale(1500, 20000))]
+    wl = []
+    for k in BITMASK:
+        for wd in words:
+            cases.append('BITW\t%s\t%d' % (k, wd)); tags.append('accessors_of_word')
+            cases.append('AVPS\t' + avp_rec(KINDS[k][0], be(wd, 4)).hex()); tags.append('decode_word')
+            cases.append('ENCA\t%s(%d)\t' % (k, wd)); tags.append('encode_word')
+            wl.append((k, wd))
+    res = run_compare(ctx, rep, cases, tags, lambda c, r: r, nontrivial=lambda c, m: True)
+    for w in IMPLS:
+        R = res[w]
+        n = 0
+        for k in BITMASK:
+            for x in (0, 1):
+                for y in (0, 1):
+                    r = R[n]; n += 1
+                    if ' first=%d second=%d' % (x, y) not in r:
+                        rep.fail('%s::new(%s,%s): accessors do not return the constructor arguments' % (k, bool(x), bool(y)), case=cases[n - 1], executor=w, got=r)
+        for (k, wd) in wl:
+            acc, dec, enc = R[n], R[n + 1], R[n + 2]
+            c0 = n
+            n += 3
+            if dec != '[Ok(%s(%d))] rem=0' % (k, wd):
+                rep.fail('bitmask word not kept through decode', case=cases[c0 + 1], executor=w, got=dec[:200])
+            if not enc.startswith('Ok ' + avp_rec(KINDS[k][0], be(wd, 4)).hex()):
+                rep.fail('bitmask word not written back unchanged', case=cases[c0 + 2], executor=w, got=enc[:200])
+            m = dict(p.split('=') for p in acc.split())
+            bits = sorted([6, 7])
+            got = (m.get('first'), m.get('second'))
+            # accessors reflect only their own bit: each is one of bits 6/7 of the word, distinct bits
+            b6, b7 = str(wd >> 6 & 1), str(wd >> 7 & 1)
+            if got not in ((b6, b7), (b7, b6)):
+                rep.fail('accessor does not reflect exactly one bit of the word', case=cases[c0], executor=w, got=acc)
+    rep.exhaustive = True
+    rep.notes['exhaustive_domain'] = 'bool^2 x 4 bitmask kinds (constructor/accessors); words are sampled (one-hot, complement, random)'
+    rep.notes['rule'] = 'all four combinations for each of the four kinds; one-hot, complement-of-one-hot and random 32-bit words through accessors, decode, encode'
+    rep.notes['channels'] = ['BITS', 'BITW', 'AVPS', 'ENCA']
+    return rep
+
+
+# =============================================================================== C18
+def ref_cursor(data, ops):
+    """20-line reference cursor: (observations, position) or 'PANIC'"""
+    pos, out = 0, []
+    for op in ops:
+        rem = len(data) - pos
+        if op == 'len':
+            out.append(str(rem))
+        elif op == 'empty':
+            out.append('true' if rem == 0 else 'false')
+        elif op in ('u8', 'u16', 'u32', 'u64'):
+            k = int(op[1:]) // 8
+            out.append(str(int.from_bytes(data[pos:pos + k], 'big'))); pos += k
+        elif op[0] == 'bytes':
+            if op[1] > rem:
+                out.append('None')
+            else:
+                out.append('x' + data[pos:pos + op[1]].hex()); pos += op[1]
+        elif op[0] == 'skip':
+            out.append('()'); pos += op[1]
+        elif op[0] == 'sub':
+            o, _ = ref_cursor(data[pos:pos + op[1]], op[2]); pos += op[1]
+            out.append(o)
+    return '[%s]' % ','.join(out), pos
+
+
+def gen_rops(rng, rem, depth=0):
+    ops, n = [], rng.randrange(1, 9)
+    for _ in range(n):
+        c = rng.random()
+        if c < 0.12:
+            ops.append('len')
+        elif c < 0.2:
+            ops.append('empty')
+        elif c < 0.5:
+            k = rng.choice([1, 2, 4, 8])
+            if k <= rem:
+                ops.append('u%d' % (8 * k)); rem -= k
+        elif c < 0.7:
+            m = rng.choice([0, rem - 1, rem, rem + 1, rem + 5, rng.randrange(0, rem + 2)])
+            m = max(0, m)
+            ops.append(('bytes', m))
+            if m <= rem:
+                rem -= m
+        elif c < 0.82:
+            m = rng.randrange(0, rem + 1)
+            ops.append(('skip', m)); rem -= m
+        elif depth < 2:
+            m = rng.randrange(0, rem + 1)
+            ops.append(('sub', m, gen_rops(rng, m, depth + 1)[0])); rem -= m
+    return ops, rem
+
+
+def rops_text(ops):
+    def t(o):
+        if isinstance(o, str):
+            return o
+        if o[0] == 'sub':
+            return 'sub:%d%s' % (o[1], rops_text(o[2]))
+        return '%s:%d' % (o[0], o[1])
+    return '[%s]' % ','.join(t(o) for o in ops)
+
+
+def run_c18(ctx):
+    rep = Report()
+    rng = ctx.rng
+    cases, tags, exp = [], [], []
+    for _ in range(ctx.scale(12000, 150000)):
+        data = rbytes(rng, rng.choice([0, 1, 2, 3, 8, 9, 16, rng.randrange(0, 40)]))
+        ops, _ = gen_rops(rng, len(data))
+        cases.append('RDOPS\t%s\t%s' % (data.hex(), rops_text(ops))); tags.append('reader_ops')
+        o, pos = ref_cursor(data, ops)
+        exp.append('%s rem=%d' % (o, len(data) - pos))
+    cases.append('RDOPS\t010203\t[bytes:4,len]'); tags.append('D4'); exp.append('[None,3] rem=3')
+    # writer
+    for _ in range(ctx.scale(8000, 100000)):
+        buf, ops, obs, panic = bytearray(), [], [], False
+        for _ in range(rng.randrange(1, 10)):
+            c = rng.random()
+            if c < 0.15:
+                v = extreme(rng, 8); ops.append('u8:%d' % v); buf += be(v, 1)
+            elif c < 0.3:
+                v = extreme(rng, 16); ops.append('u16:%d' % v); buf += be(v, 2)
+            elif c < 0.4:
+                v = extreme(rng, 32); ops.append('u32:%d' % v); buf += be(v, 4)
+            elif c < 0.5:
+                v = extreme(rng, 64); ops.append('u64:%d' % v); buf += be(v, 8)
+            elif c < 0.65:
+                b = rbytes(rng, rng.randrange(0, 6)); ops.append('bytes:%s' % b.hex()); buf += b
+            elif c < 0.75:
+                ops.append('len'); obs.append(str(len(buf)))
+            elif c < 0.8:
+                ops.append('empty'); obs.append('true' if not buf else 'false')
+            else:
+                b = rbytes(rng, rng.randrange(0, 4))
+                off = rng.choice([0, len(buf) - len(b), len(buf) - len(b) + 1, len(buf), rng.randrange(0, len(buf) + 2)])
+                off = max(0, off)
+                ops.append('at:%d:%s' % (off, b.hex()))
+                if off + len(b) <= len(buf):
+                    buf[off:off + len(b)] = b
+                else:
+                    panic = True
+                    break
+        cases.append('WROPS\t[%s]' % ','.join(ops)); tags.append('writer_ops')
+        exp.append('PANIC' if panic else '%s [%s]' % (bytes(buf).hex(), ','.join(obs)))
+    res = run_compare(ctx, rep, cases, tags, lambda c, r: r, nontrivial=lambda c, m: True)
+    for w in IMPLS:
+        for c, e, r in zip(cases, exp, res[w]):
+            if r != e:
+                rep.fail('observable results differ from the reference cursor / vector', case=c[:500], executor=w, got=r[:300], expected=e[:300])
+    rep.notes['rule'] = ('random operation programs on the real SliceReader (reads of 1/2/4/8 octets, bytes(n) with n around the remaining length incl. n > remaining, '
+                         'skip, nested subreader; only in-contract skip/subreader/unchecked reads) and on VecWriter (writes, write_bytes_at in range / touching the '
+                         'end / one past); compared with the model and with an independent reference cursor/bytearray in Python')
+    rep.notes['channels'] = ['RDOPS', 'WROPS']
+    return rep
+
+
+PROPS.update({
+    'C16': {'run': run_c16, 'search': generic_search(run_c16), 'assumes': []},
+    'C17': {'run': run_c17, 'search': generic_search(run_c17), 'assumes': ['the pairing of accessor names with constructor parameter names is written by hand in Model/Ops.v and in the harness call table']},
+    'C18': {'run': run_c18, 'search': generic_search(run_c18), 'assumes': ['out-of-contract skip_bytes/subreader/unchecked reads are not generated (the property leaves them open)']},
+})
+
+
+# =============================================================================== C19
+IO_TOKENS = ['print!', 'println!', 'eprint', 'dbg!', 'std::io', 'static mut', 'Atomic', 'Mutex', 'RwLock', 'Cell<', 'RefCell',
+             'thread_local', 'OnceLock', 'OnceCell', 'Lazy', 'lazy_static', 'std::env', 'std::fs', 'std::process', 'SystemTime', 'Instant']
+
+
+def source_scan():
+    hits = []
+    src = os.path.join(lib.REPO, 'src')
+    for d, _, fs in os.walk(src):
+        for f in fs:
+            if not f.endswith('.rs') or f == 'tests.rs' or os.sep + 'tests' in d:
+                continue
+            p = os.path.join(d, f)
+            for n, line in enumerate(open(p, errors='replace'), 1):
+                s = line.split('//')[0]
+                for t in IO_TOKENS:
+                    if t in s:
+                        hits.append('%s:%d:%s' % (os.path.relpath(p, lib.REPO), n, t))
+    return hits
+
+
+def pure_workload(ctx, n):
+    rng = ctx.rng
+    cases = []
+    for (t, b) in corpus.dec_corpus(rng, n, False)[:n]:
+        cases.append('DEC\t%d\t%s' % (rng.randrange(8), b.hex()))
+    for _ in range(n // 3):
+        cases.append('DEC\t7\t' + corpus.rand_valid_ctrl_bytes(rng, rng.randrange(1, 8)).hex())
+        cases.append('AVPS\t' + b''.join(rand_body(rng, rng.randrange(1, 6), good_only=False)).hex())
+        cases.append('ENC\t%s\t' % rand_ctrl(rng, small=True))
+        cases.append('ENCA\t%s\t' % rand_avp(rng, maxpay=60))
+    for _ in range(n // 10):
+        a = hide_args(rng)
+        cases.append('HIDE\t%s\t%s\t%s\t%s\t%s' % (rand_avp(rng, allow_hidden=False, maxpay=60), a[0].hex(), a[1].hex(), a[2].hex(), a[3].hex()))
+        cases.append('REVEAL\tHidden(7,%s)\t%s\t%s' % (rbytes(rng, 32).hex(), a[0].hex(), a[1].hex()))
+    return cases
+
+
+def run_c19(ctx):
+    import subprocess
+    rep = Report()
+    rng = ctx.rng
+    hits = source_scan()
+    boost = 10 if hits else 1
+    rep.notes['source_scan_hits'] = hits[:20]
+    cases = pure_workload(ctx, ctx.scale(2500, 20000))
+    model = ctx.runner.run(cases, ('model',))['model']
+    wd = ctx.runner.workdir
+    os.makedirs(wd, exist_ok=True)
+    inp = os.path.join(wd, 'pure.in')
+    open(inp, 'w').write('\n'.join(cases) + '\n')
+    rounds = (3 if not ctx.thorough else 12) * boost
+    nthreads = 16
+    for w in IMPLS:
+        outp = os.path.join(wd, 'pure.%s.out' % w)
+        # (a)+(b): a silent worker (results go to a file); fds 1 and 2 are pipes and must stay empty
+        p = subprocess.run([ctx.runner.bins[w], '--out', outp, '--threads', str(nthreads), '--rounds', str(rounds)],
+                           stdin=open(inp), stdout=subprocess.PIPE, stderr=subprocess.PIPE, timeout=1200)
+        if p.stdout or p.stderr:
+            # find a single case that makes the library write
+            culprit = None
+            for c in cases[:400]:
+                q = subprocess.run([ctx.runner.bins[w], '--out', outp + '.1'], input=(c + '\n').encode(), stdout=subprocess.PIPE, stderr=subprocess.PIPE)
+                if q.stdout or q.stderr:
+                    culprit = c
+                    break
+            rep.fail('the library wrote %d octets to stdout and %d to stderr' % (len(p.stdout), len(p.stderr)),
+                     case=culprit or cases[0], executor=w, stdout=p.stdout[:200].decode(errors='replace'), stderr=p.stderr[:200].decode(errors='replace'))
+        if p.returncode != 0:
+            rep.fail('worker exited with status %s' % p.returncode, case=cases[0], executor=w)
+            continue
+        lines = open(outp).read().split('\n')
+        seq = lines[:len(cases)]
+        rest = [l for l in lines[len(cases):] if l]
+        rep.evaluations += len(cases) * (1 + nthreads * rounds)
+        for i, c in enumerate(cases):
+            if cls(model[i]) == 'BADCASE':
+                rep.badcases += 1
+                continue
+            rep.distinct.add(lib.sha(c))
+            if seq[i] != model[i]:
+                rep.disagree(c, w, seq[i], model[i], tag='sequential')
+        for l in rest:
+            if l.startswith('MISMATCH'):
+                f = l.split('\t')
+                rep.fail('a call returned a different result when run concurrently / repeated', case=cases[int(f[1])], executor=w,
+                         thread=f[2], round=f[3], got=f[4][:300], sequential=seq[int(f[1])][:300])
+        # (b') repeated and shuffled in a fresh process: results are a function of the input only
+        order = list(range(len(cases)))
+        rng.shuffle(order)
+        sh = [cases[i] for i in order] + [cases[i] for i in order[:200]]
+        r2 = ctx.runner.run(sh, (w,))[w]
+        rep.evaluations += len(sh)
+        for k, i in enumerate(order + order[:200]):
+            if r2[k] != seq[i]:
+                rep.fail('a call returned a different result when repeated in a different order', case=cases[i], executor=w, got=r2[k][:300], first=seq[i][:300])
+        if len(rep.samples) < 4:
+            rep.samples.append({'case': cases[0][:200], 'implementation': seq[0][:200], 'threads': nthreads, 'rounds': rounds})
+    for k in ('DEC', 'AVPS', 'ENC', 'ENCA', 'HIDE', 'REVEAL'):
+        rep.dist[k] = sum(1 for c in cases if c.startswith(k + '\t'))
+    rep.notes['rule'] = ('a decode/encode/hide/reveal workload run (a) in a worker whose fds 1/2 are pipes and which itself prints nothing, (b) sequentially, then from 16 '
+                         'threads in different orders for several rounds, then shuffled and repeated in a fresh process; every result must equal the first and the model')
+    rep.notes['explanation'] = ('purity cannot be exhibited by a Gallina model beyond "the model is a function"; this check is runtime monitoring (fd capture, repetition, '
+                                'threads) plus differential comparison with the model. Not covered: interleavings not scheduled, output through other fds, state that '
+                                'changes results only after more calls than run here.')
+    rep.notes['channels'] = ['PURE(DEC,AVPS,ENC,ENCA,HIDE,REVEAL)']
+    return rep
+
+
+# =============================================================================== C20
+def run_c20(ctx):
+    rep = Report()
+    rng = ctx.rng
+    cases, tags = [], []
+    for t in range(65536):
+        for v in ('IncompleteAVP', 'InvalidUtf8', 'AVPReadError'):
+            cases.append('SHOW\t%s(%d)' % (v, t)); tags.append('show_avp_' + v)
+    num = ['UnknownMessageType', 'InvalidResultCodeErrorType', 'InvalidAVPLength', 'UnknownAvp', 'InvalidOriginalAVPLength', 'UnsupportedVendorId', 'InvalidOffset']
+    for v in num:
+        for x in [0, 1, 9, 10, 99, 100, 255, 256, 999, 1000, 9999, 10000, 65534, 65535] + [rng.getrandbits(16) for _ in range(50)]:
+            cases.append('SHOW\t%s(%d)' % (v, x)); tags.append('show_num')
+    for x in range(256):
+        cases.append('SHOW\tInvalidVersion(%d)' % x); tags.append('show_version')
+    for v in ['EmptyHiddenAVP', 'MisalignedHiddenAVP', 'InvalidReservedBits', 'IncompleteFlags', 'IncompleteDataMessageHeader', 'IncompleteDataMessagePayload',
+              'EmptyDataMessagePayload', 'MessageReadError', 'ForbiddenControlMessagePriority', 'ForbiddenControlMessageOffset', 'ControlMessageWithoutLength',
+              'ControlMessageWithoutNsNr', 'IncompleteControlMessageHeader', 'IncompleteControlMessagePayload', 'ControlMessageTypeNotFirst']:
+        cases.append('SHOW\t' + v); tags.append('show_unit')
+    nshow = len(cases)
+    # the AVP kind each attribute number actually decodes to
+    kind_cases = []
+    for t in range(0, 64):
+        vp = valid_payload(rng, t)
+        kind_cases.append('AVPS\t' + avp_rec(t, vp if vp is not None else bytes(8)).hex())
+    res = run_compare(ctx, rep, cases + kind_cases, tags + ['kind_of_type'] * len(kind_cases), lambda c, r: r, nontrivial=lambda c, m: True)
+    for w in IMPLS:
+        R = res[w]
+        kinds = {}
+        for t in range(64):
+            r = strip_rem(R[nshow + t])[1:-1]
+            kinds[t] = r[3:].split('(')[0] if r.startswith('Ok(') else None
+        for i in range(nshow):
+            r = R[i]
+            if not returns(r) or r == '':
+                rep.fail('rendering a decode error did not produce text', case=cases[i], executor=w, got=r[:100])
+        for t in range(65536):
+            name = kinds.get(t) or str(t)
+            for j in range(3):
+                r = R[3 * t + j]
+                if '(%s)' % name not in r:
+                    rep.fail('rendered text does not show the name of the AVP kind that attribute type %d decodes to (%s)' % (t, name),
+                             case=cases[3 * t + j], executor=w, got=r[:200])
+    # single-fault injection into otherwise valid messages
+    inj, want = [], []
+    for _ in range(ctx.scale(4000, 40000)):
+        recs = rand_body(rng, rng.randrange(1, 6))
+        pos = rng.randrange(1, len(recs) + 1)
+        f = rng.choice(['version', 'unknown_type', 'unknown_mt_first', 'unknown_mt_later', 'vendor', 'offset', 'errtype', 'truncated', 'utf8'])
+        fl = 0x1320
+        opt = 2
+        if f == 'version':
+            x = rng.choice([v for v in range(16) if v != 2])
+            b = ctrl_bytes(b''.join(recs), (fl & ~0xf0) | x << 4); e = 'InvalidVersion(%d)' % x
+        elif f == 'offset':
+            nd = rng.randrange(1, 20)
+            x = rng.choice([nd + 1, nd + 2, 255, 65535, rng.randrange(nd + 1, 65536)])
+            b = data_bytes(rbytes(rng, nd), rng.random() < 0.5, rng.random() < 0.5, True, False, None, x, b''); e = 'InvalidOffset(%d)' % x
+            if b[0] & 2:   # keep the declared length consistent with what is present
+                b = b[:2] + be(len(b), 2) + b[4:]
+        else:
+            if f == 'unknown_type':
+                x = rng.choice([20, 40, 41, 255, 65535, rng.randrange(40, 65536)]); r = avp_rec(x, rbytes(rng, rng.randrange(0, 9))); e = 'UnknownAvp(%d)' % x
+            elif f == 'unknown_mt_later':
+                x = rng.choice([0, 5, 13, 17, 65535, rng.randrange(17, 65536)]); r = avp_rec(0, be(x, 2)); e = 'UnknownMessageType(%d)' % x
+            elif f == 'unknown_mt_first':
+                x = rng.choice([0, 5, 13, 17, 65535]); r = avp_rec(0, be(x, 2)); pos = 0; e = 'ControlMessageTypeNotFirst'
+            elif f == 'vendor':
+                x = rng.choice([1, 311, 65535, rng.randrange(1, 65536)]); r = avp_rec(rng.randrange(1, 40), rbytes(rng, rng.randrange(0, 9)), vendor=x); e = 'UnsupportedVendorId(%d)' % x
+            elif f == 'errtype':
+                x = rng.choice([9, 10, 255, 65535, rng.randrange(9, 65536)]); r = avp_rec(1, be(1, 2) + be(x, 2)); e = 'InvalidResultCodeErrorType(%d)' % x
+            elif f == 'truncated':
+                t = rng.choice([x for x in TYPE_KIND if MIN_LEN[KINDS[TYPE_KIND[x]][1]] > 0 and x != 0])
+                r = avp_rec(t, rbytes(rng, rng.randrange(0, MIN_LEN[KINDS[TYPE_KIND[t]][1]]))); e = 'IncompleteAVP(%d)' % t
+            else:
+                t = rng.choice([8, 21, 22, 23]); r = avp_rec(t, b'ok\xff' + rutf8(rng, 2)); e = 'InvalidUtf8(%d)' % t
+            if f == 'unknown_mt_first':
+                recs2 = [r] + recs[1:]
+            else:
+                recs2 = recs[:pos] + [r] + recs[pos:]
+            b = ctrl_bytes(b''.join(recs2))
+        inj.append('DEC\t%d\t%s' % (opt, b.hex())); want.append('Err [%s]' % e)
+    ri = run_compare(ctx, rep, inj, ['fault_injection'] * len(inj), lambda c, r: r)
+    for w in IMPLS:
+        for c, e, r in zip(inj, want, ri[w]):
+            if r != e:
+                rep.fail('the reported error does not name the injected fault with its offending value', case=c[:600], executor=w, got=r[:300], expected=e)
+    rep.exhaustive = True
+    rep.notes['exhaustive_domain'] = 'all 65536 attribute numbers x {IncompleteAVP, InvalidUtf8, AVPReadError}; all 256 version payloads; every unit variant'
+    rep.notes['rule'] = ('exhaustive rendering sweep compared octet for octet with Model/Render.v and with the Debug name of the AVP decoded at that number; single-fault '
+                         'injections (9 fault kinds, every position, offending values at boundaries) into valid messages')
+    rep.notes['channels'] = ['SHOW', 'AVPS', 'DEC']
+    return rep
+
+
+PROPS.update({
+    'C19': {'run': run_c19, 'search': generic_search(run_c19), 'level': 'other',
+            'assumes': ['thread interleavings not scheduled during the run, output through descriptors other than 1/2, and state that changes results only after more calls than performed are not covered']},
+    'C20': {'run': run_c20, 'search': generic_search(run_c20), 'assumes': []},
+})
